@@ -126,4 +126,28 @@ theorem n_copy (w : World) (p : Nat) (v : ℝ) (h : w.n p = some v) : (w.step (.
       simp [hp, hf] at h
       simp [World.n, World.step, hp, hf, h]
 
+/-- current code: the memoised read is the mean motion of the CURRENT target when the memo is empty or was filled with the current
+values — not after a write of `sma` / `frame` that follows a read (Witness/C16.lean `memo_stale_after_write`) -/
+theorem readMemo_eq_current_partial (m : Memo) (h : m.memo = none ∨ m.memo = some (meanMotionSrc m.mu m.sma)) :
+    m.read.1 = meanMotionSrc m.mu m.sma := by
+  unfold Memo.read
+  split
+  · rcases h with h | h <;> simp [h]
+  · rfl
+
+/-- reading twice returns the same value -/
+theorem readMemo_idempotent (m : Memo) : m.read.2.read.1 = m.read.1 := by
+  unfold Memo.read
+  split
+  · cases hm : m.memo <;> simp [hm]
+  · simp [*]
+
+/-- a copy reads the current mean motion -/
+theorem copy_read_current (m : Memo) : m.copy.read.1 = meanMotionSrc m.mu m.sma := by
+  apply readMemo_eq_current_partial m.copy
+  left; rfl
+
+/-- the read of the proposed fix follows every write -/
+theorem readFixed_after_write (m : Memo) (mu sma : ℝ) : (m.write mu sma).readFixed = meanMotionSrc mu sma := rfl
+
 end BeyondVerif.C16
